@@ -154,6 +154,10 @@ def rand_circuit(
     (so the circuit has no dead logic unless asked otherwise).
     """
     types = list(types or ALL_GATES)
+    if force is None and p_input_output > 0 and rng.random() < 0.015:
+        # degenerate sizes: no gate at all, or a single gate over one or two inputs
+        n_gates = rng.choice([0, 0, 1])
+        n_inputs = rng.randint(1, 2)
     cd = new_cdict(name)
     shape = shape or rng.choice(["random", "random", "random", "chain", "tree", "diamond", "wide", "multi"])
     avail = []
